@@ -432,6 +432,9 @@ def seq_filter(st, eng, n, pred, elem, etype=INT, label="filter"):
 @lib("numpy.isin")
 def _np_isin(args, kwargs, st, eng):
     a, vals = eng.as_seq(args[0], st), eng.deref(args[1], st)
+    au = kwargs.get("assume_unique", VBool(False))
+    eng.safety(st, "isin:assume_unique-off", z3.Not(eng.truth(au, st)), None,
+               "np.isin(..., assume_unique=True) is only exact when BOTH arrays are duplicate free; per-sample class arrays are not")
     r = VSeq(a.len, lambda k: VBool(eng.contains(vals, a.elem(k), st, None)), BOOL)
     r.kind = z3.IntVal(2)
     return r
